@@ -246,7 +246,13 @@ def evalCore (ctx : Ctx) (vS lenS tailS piecesS : String) : Option Result := do
   let v ← variantOf vS
   let len0 ← lenS.toNat?
   let tail0 := unhex tailS
-  let pieces := parsePieces piecesS
+  -- `Z<n>` = a piece of n zero bytes (n ≥ 2^32).  The model cannot hold such a list; by
+  -- `Model.updateFull_eq` only the first `maxLen - len` bytes of a piece matter once the tail is
+  -- full, so near `MAX_LEN` the piece is represented by its first 8192 bytes.
+  let hasZ := (piecesS.splitOn ",").any (fun p => p.startsWith "Z")
+  if hasZ && !(len0 + 4096 ≥ Model.maxLen && tail0.length = 4) then none else
+  let pieces := (if piecesS == "-" then [] else piecesS.splitOn ",").map (fun p =>
+    if p.startsWith "Z" then List.replicate 8192 (0 : UInt8) else unhex p)
   let f : Unit → List UInt8 → Unit := fun _ _ => ()
   let obs (s : Model.St Unit) : String :=
     toString s.len ++ ":" ++ hexStr s.tail ++ ":" ++ lenStr (Model.processedLen s)
